@@ -670,7 +670,7 @@ func init() {
 	})
 
 	engine.RegisterCheck("C13", func(r *engine.Run) {
-		r.Rule = "ENUM: every URI of a grammar (2 schemes x 3 authorities x 6 paths x 5 fragments x 6 local parts, incl. empty local part and colons) is compacted and expanded through every API that does so; SEQ: every order of first use of 4 URI sets over 2 datasets (as batches, and as transactions through a contextual store the way ExecuteTransaction() of a javascript transform issues them) with restarts, a rejected batch and lookups by full URI (a read as the first mention of a namespace), up to the stated depth, checking bijection, permanence and persisted=memory after every step; CRASH: real SIGKILL at every durable commit of such histories; SCHED: asserters of the same/different expansions, writers introducing the same new identifiers, and context readers/serialisers under every interleaving up to the preemption bound, with a happens-before monitor on the namespace map; distinct = distinct canonical states / outcomes"
+		r.Rule = "ENUM (HTTP): after a POST that introduces namespaces, every sequence of up to three reads over {entities, changes - each as JSON and as JSON-LD -, namespaces, query} on a dataset with and without public namespaces; after every read GET /namespaces equals the namespace manager's own table and is one-to-one, and the @context of every JSON response is part of it. ENUM: every URI of a grammar (2 schemes x 3 authorities x 6 paths x 5 fragments x 6 local parts, incl. empty local part and colons) is compacted and expanded through every API that does so; SEQ: every order of first use of 4 URI sets over 2 datasets (as batches, and as transactions through a contextual store the way ExecuteTransaction() of a javascript transform issues them) with restarts, a rejected batch and lookups by full URI (a read as the first mention of a namespace), up to the stated depth, checking bijection, permanence and persisted=memory after every step; CRASH: real SIGKILL at every durable commit of such histories; SCHED: asserters of the same/different expansions, writers introducing the same new identifiers, and context readers/serialisers under every interleaving up to the preemption bound, with a happens-before monitor on the namespace map; distinct = distinct canonical states / outcomes"
 		r.Assumptions = []string{"badger transactions are linearizable and commits atomic w.r.t. process kill"}
 		// ENUM
 		pool := &engine.Pool{N: 1, Args: []string{"worker", "c13-enum"}, Timeout: 120 * time.Second}
@@ -691,6 +691,28 @@ func init() {
 				r.AddSample(s)
 			}
 			r.AddPart(map[string]interface{}{"engine": "ENUM", "name": "c13-roundtrip", "uris": len(c13URIs()), "evaluations": er.Evaluations, "distinct_curies": er.Distinct})
+		}
+		// the HTTP face: GET /namespaces and the @context of responses after every sequence of up to three reads
+		{
+			pl := &engine.Pool{N: 1, Args: []string{"worker", "c13-http"}, Timeout: 300 * time.Second}
+			ho := pl.Do([]json.RawMessage{json.RawMessage(`{}`)}, nil)
+			var hr struct {
+				Sequences int                `json:"sequences"`
+				Reads     int                `json:"reads"`
+				Viol      []engine.Violation `json:"viol"`
+				Err       string             `json:"err"`
+			}
+			if ho[0].Err != "" || json.Unmarshal(ho[0].Out, &hr) != nil || hr.Err != "" {
+				r.Cap("c13-http failed: " + ho[0].Err + " " + hr.Err)
+			} else {
+				for _, v := range hr.Viol {
+					v.Replay = map[string]interface{}{"worker": []string{"worker", "c13-http"}}
+					r.AddViolation(v)
+				}
+				r.Evaluations += hr.Reads
+				r.Traces += hr.Sequences
+				r.AddPart(map[string]interface{}{"engine": "ENUM", "name": "c13-http", "read_sequences": hr.Sequences, "reads": hr.Reads})
+			}
 		}
 		// SEQ
 		var alpha []VOp
